@@ -251,11 +251,17 @@ pub enum Op {
     DamageBucket { key: usize, dmg: BDamage },
     /// append a reference-encoded record for `key` into the bucket file of `bucket_of`
     ForeignRecord { bucket_of: usize, key: usize, addr: AddrRef },
+    /// harness-side, driver processes only: change the working directory to `<scratch>/cwd/d<dir>`
+    Chdir { dir: usize },
+    /// harness-side: append a checksum-valid record for `key` (in its own bucket) whose
+    /// integrity text is arbitrary — a state no well-formed call produces; lookups of that key
+    /// are then judged by agreement (listing vs lookup, flavour vs flavour), not by the model
+    PlantRecord { key: usize, integrity: Option<String>, time: u64 },
 }
 
 impl Op {
     pub fn is_harness_side(&self) -> bool {
-        matches!(self, Op::DamageContent { .. } | Op::DamageBucket { .. } | Op::ForeignRecord { .. })
+        matches!(self, Op::DamageContent { .. } | Op::DamageBucket { .. } | Op::ForeignRecord { .. } | Op::Chdir { .. } | Op::PlantRecord { .. })
     }
     pub fn name(&self) -> &'static str {
         match self {
@@ -280,6 +286,8 @@ impl Op {
             Op::DamageContent { .. } => "damage_content",
             Op::DamageBucket { .. } => "damage_bucket",
             Op::ForeignRecord { .. } => "foreign_record",
+            Op::Chdir { .. } => "chdir",
+            Op::PlantRecord { .. } => "plant_record",
         }
     }
 }
